@@ -18,7 +18,7 @@ EXTENDS TemplateSource, Json, IOUtils
 Traces == ndJsonDeserialize(IOEnv.IN)
 
 VARIABLES tid, l, phase, nfail
-trVars == <<order, val, ret, made, got, req, kase, hist, shown, keytab, tid, l, phase, nfail>>
+trVars == <<order, val, ret, made, got, req, cls, kase, hist, shown, keytab, tid, l, phase, nfail>>
 
 Events == Traces[tid].events
 Ev == Events[l]
@@ -26,7 +26,7 @@ Ev == Events[l]
 TrInit == TSInit(Traces[1].k) /\ tid = 1 /\ l = 1 /\ phase = "step" /\ nfail = 0
 
 NextTrace == /\ tid' = tid + 1 /\ l' = 1 /\ phase' = "step" /\ nfail' = 0
-             /\ order' = <<>> /\ val' = <<>> /\ ret' = None /\ made' = <<>> /\ got' = 0 /\ req' = 0
+             /\ order' = <<>> /\ val' = <<>> /\ ret' = None /\ made' = <<>> /\ got' = 0 /\ req' = 0 /\ cls' = 0
              /\ kase' = IF tid < Len(Traces) THEN Traces[tid + 1].k ELSE kase
              /\ hist' = <<>> /\ shown' = "-" /\ keytab' = <<>>
 
@@ -50,7 +50,7 @@ Failing(e) ==
 
 Cmp == /\ tid <= Len(Traces) /\ phase = "cmp"
        /\ l' = l + 1 /\ phase' = "step"
-       /\ UNCHANGED <<order, val, ret, made, got, req, kase, hist, shown, keytab, tid>>
+       /\ UNCHANGED <<order, val, ret, made, got, req, cls, kase, hist, shown, keytab, tid>>
        /\ IF Failing(Ev) = {}
           THEN UNCHANGED nfail
           ELSE /\ PrintT(<<"REJECT", Traces[tid].id, l, Failing(Ev)>>)
